@@ -2,11 +2,27 @@
 
 use crate::report::Ctx;
 
+pub mod c02;
+pub mod c03;
 pub mod c04;
+pub mod c07;
+pub mod c08;
+pub mod c25;
+pub mod c30;
+pub mod ops;
 
 pub fn dispatch(ctx: &mut Ctx) {
     match ctx.prop.as_str() {
+        "C02" => c02::run(ctx),
+        "C03" => c03::run(ctx),
         "C04" => c04::run(ctx),
+        "C06" => ops::run_c06(ctx),
+        "C07" => c07::run_c07(ctx),
+        "C08" => c08::run_c08(ctx),
+        "C11" => c07::run_c11(ctx),
+        "C25" => c25::run(ctx),
+        "C30" => c30::run(ctx),
+        "C31" => c08::run_c31(ctx),
         p => panic!("no monitor for {p}"),
     }
 }
